@@ -56,6 +56,11 @@ FINDINGS_ALL = _load_findings()
 
 
 def classify(case, fail, il, findings):
+    ids = set(f["id"] for f in findings)
+    # real TLS loopback run: the peer resets the connection while a large response is being written
+    if "C19-KF1" in ids and case.id == "extra" and case.lines and "net_driver_tls" in case.lines[0] \
+            and "mode=midresp" in case.lines[0] and "the server crashed" in fail:
+        return "C19-KF1"
     return None
 
 
